@@ -373,6 +373,28 @@ class Engine:
             self.frames.pop()
         return rv
 
+    def run_stmts(self, fn, stmts, locs, selfobj=None):
+        """Execute a slice (list of statement nodes taken from fn's own AST) in a
+        frame with fn's globals/closure and the given locals."""
+        node, _ = func_ast(fn)
+        cells = {}
+        if fn.__closure__:
+            for n, c in zip(fn.__code__.co_freevars, fn.__closure__):
+                try:
+                    cells[n] = c.cell_contents
+                except ValueError:
+                    pass
+        fr = Frame(fn, node, locs, cells, fn.__globals__, selfobj)
+        self.frames.append(fr)
+        try:
+            try:
+                self.exec_block(stmts)
+            except _Return as r:
+                return r.value
+        finally:
+            self.frames.pop()
+        return None
+
     # ---- wrapping real objects -------------------------------------------
     def wrap(self, v):
         if v is None or isinstance(v, (bool, int, str, bytes, float)):
@@ -754,6 +776,12 @@ class Engine:
     def binop(self, op, a, b, node=None):
         if isinstance(a, Unknown) or isinstance(b, Unknown):
             return UNK
+        if isinstance(a, SymList) or isinstance(b, SymList):
+            if op == '*' and isinstance(a, SymList) and isinstance(b, int):
+                return SymList(a.items * b)
+            if op == '+' and isinstance(a, SymList) and isinstance(b, (SymList, list, tuple)):
+                return SymList(a.items + list(b.items if isinstance(b, SymList) else b))
+            raise Refuse('list operator ' + op)
         if isinstance(a, (tuple, list, str, bytes)) or isinstance(b, (tuple, list, str, bytes)):
             if not (is_sym(a) or is_sym(b)):
                 if op == '+':
@@ -1071,6 +1099,8 @@ class Engine:
                 return SV(t, 0, 255)
             raise Refuse('bank slice')
         if isinstance(base, tuple) and is_sym(idx):
+            if isinstance(idx, SB):
+                idx = sv(idx)
             if isinstance(idx, SV):
                 n = len(base)
                 self.oblige('idx', and_(idx >= 0, idx < n), node)
@@ -1284,7 +1314,7 @@ class Engine:
             return truth(args[0])
         if name == 'tuple' and len(args) == 1 and isinstance(args[0], (SymList, tuple)):
             return tuple(args[0].items) if isinstance(args[0], SymList) else args[0]
-        if name == 'list' and len(args) == 1 and isinstance(args[0], (SymList, tuple)):
+        if name in ('list', 'bytearray') and len(args) == 1 and isinstance(args[0], (SymList, tuple)):
             return SymList(args[0].items if isinstance(args[0], SymList) else args[0])
         if name == 'range' and self.unknown_ok:
             return UNK
